@@ -26,7 +26,9 @@ RULE = (
     "watch but for its event filter); A' == A but a distinct object, items are (event, watch) tuples as the observer "
     "queues them, and which items count as equal is written down in the check, not taken from the library's __eq__; (b) concurrent "
     "histories of 1-3 producers and a consumer under generated schedules, checked for linearizability; (c) Hypothesis "
-    "pairs of event objects over all classes, str/bytes paths, synthetic flag.  non-trivial (a/b) = an equal item is "
+    "pairs of event objects over all classes, str/bytes paths, synthetic flag; (d) a backlog of 20000-300000 distinct "
+    "events fed through EventEmitter.queue_event() into the observer's own queue with nobody consuming: all come out, in "
+    "order.  non-trivial (a/b) = an equal item is "
     "offered while its twin is still queued, or right after it was dequeued, or separated by a different item; (c) = "
     "pairs that agree in all fields but the class, or are equal; distinct = the sequence / pair itself"
 )
@@ -179,6 +181,74 @@ def check_equality(pair):
     return exp or (same_fields and fa[0] is not fb[0]), ["eq:equal" if exp else ("eq:same-fields-other-class" if same_fields else "eq:different")]
 
 
+# ----------------------------------------------------------------------------- a large backlog (real threads)
+
+BACKLOGS = {"quick": (20000, 70000), "thorough": (70000, 300000)}
+
+
+def run_backlog(n, full):
+    """The queue an observer hands to its emitters, fed through EventEmitter.queue_event() with n distinct events while
+    nobody consumes (a handler that stalls): afterwards all n are taken out, in order.  `full`: every event twice in a
+    row (the second one may be dropped) plus an equal event after a different one (must stay)."""
+    import threading
+
+    from watchdog.events import FileCreatedEvent, FileModifiedEvent, FileSystemEventHandler
+    from watchdog.observers.api import BaseObserver, EventEmitter
+
+    obs = BaseObserver(EventEmitter, timeout=0.001)
+    watch = obs.schedule(FileSystemEventHandler(), "/r", recursive=True)
+    (em,) = obs.emitters
+    done = threading.Event()
+    err = []
+
+    def feed():
+        try:
+            for k in range(n):
+                e = FileCreatedEvent(f"/r/f{k}")
+                em.queue_event(e)
+                if full:
+                    em.queue_event(FileCreatedEvent(f"/r/f{k}"))  # consecutive duplicate
+                    if k % 1000 == 0:
+                        em.queue_event(FileModifiedEvent(f"/r/f{k}"))
+                        em.queue_event(FileCreatedEvent(f"/r/f{k}"))  # equal to an earlier one, but not consecutive
+        except Exception as ex:  # noqa: BLE001
+            err.append(ex)
+        done.set()
+
+    t = threading.Thread(target=feed, daemon=True)
+    t.start()
+    if not done.wait(120):
+        raise runner.Inconclusive(f"EventEmitter.queue_event() did not take {n} events within 120 s with nobody consuming (size now {obs.event_queue.qsize()})")
+    if err:
+        raise Violation(f"EventEmitter.queue_event() raised {err[0]!r} with {obs.event_queue.qsize()} entries waiting", "backlog-raised")
+    got = []
+    while True:
+        try:
+            got.append(obs.event_queue.get_nowait())
+        except queue.Empty:
+            break
+    names = [e.src_path for e, w in got if isinstance(e, FileCreatedEvent)]
+    want = []
+    for k in range(n):
+        want.append(f"/r/f{k}")
+        if full and k % 1000 == 0:
+            want.append(f"/r/f{k}")
+    # a consecutive duplicate may or may not have been dropped: collapse both sides
+    coll = [x for j, x in enumerate(names) if j == 0 or names[j - 1] != x or (full and False)]
+    if not full and names != want:
+        lost = len(want) - len(names)
+        raise Violation(f"{n} distinct events queued with nobody consuming, {len(names)} came out ({lost} lost; first difference at {next((j for j, (a, b) in enumerate(zip(names, want)) if a != b), min(len(names), len(want)))})", "backlog-lost")
+    if full:
+        it = iter(names)
+        if not all(any(x == y for y in it) for x in want):
+            raise Violation(f"backlog of {n} events with duplicates: the required events are not a sub-sequence of what came out ({len(names)} entries)", "backlog-lost")
+        if len(names) > 2 * n + len(want):
+            raise Violation("more entries came out than were put", "backlog-invented")
+    if any(w is not watch and w != watch for e, w in got):
+        raise Violation("an entry came out with another watch", "backlog-watch")
+    return True, ["backlog", f"backlog>={n}"]
+
+
 # ----------------------------------------------------------------------------- shards
 
 NSH = 16
@@ -198,7 +268,7 @@ def seqs(tier):
 
 
 def shards(tier, seed):
-    out = [("seq", tier, seed, i) for i in range(NSH)] + [("eq", tier, seed, i) for i in range(4)]
+    out = [("seq", tier, seed, i) for i in range(NSH)] + [("eq", tier, seed, i) for i in range(4)] + [("backlog", tier, seed, i) for i in range(2)]
     try:
         from props import c16_conc  # noqa: F401
 
@@ -215,6 +285,13 @@ def run_shard(spec):
 
         return c16_conc.run_shard(spec)
     st_ = Stats()
+    if kind == "backlog":
+        try:
+            nt, cl = run_backlog(BACKLOGS[tier][i], full=bool(i))
+            st_.case(["backlog", i, tier], nt, cl)
+        except Violation as v:
+            st_.fail({"kind": "backlog", "n": BACKLOGS[tier][i], "full": bool(i)}, v.message, v.signature)
+        return st_
     if kind == "seq":
         st_.exhaustive = True
         n = 0
@@ -261,7 +338,9 @@ def run_shard(spec):
 
 def replay(case):
     try:
-        if case["kind"] == "seq":
+        if case["kind"] == "backlog":
+            run_backlog(case["n"], full=case["full"])
+        elif case["kind"] == "seq":
             run_sequence(tuple(case["seq"]))
         elif case["kind"] == "eq":
             check_equality(tuple(tuple(x) for x in case["pair"]))
